@@ -22,8 +22,9 @@ Implicit Types c : sconn.
 
 Lemma dead_spec_next_conn s i r : conn_err r = true -> RS.dead (RS.spec_next s i r) = true.
 Proof.
-  intro H. destruct i as [f| |code].
+  intro H. destruct i as [f| |code|].
   - rewrite dead_spec_next, H. apply orb_true_r.
+  - destruct r; try discriminate; reflexivity.
   - destruct r; try discriminate; reflexivity.
   - destruct r; try discriminate; reflexivity.
 Qed.
